@@ -165,6 +165,56 @@ Theorem fetch_builtin_is_plugin : forall mode e absurl script src p,
 Proof. exact fetch_symbolize_generic_lemma. Qed.
 Print Assumptions fetch_builtin_is_plugin.
 
+(* -- the command line (driver.PProf; M_SymbolizeFetch.fetch_cli): `pprof [-symbolize=mode] [-buildid=id]
+      [-add_comment=text] [executable] source`.  [cli_input c p] = what the command line presents to
+      symbolization: the fetched profile with the fake mapping when it has none, the named executable
+      as file of the main mapping, the build id override. -- *)
+
+(* naming the executable / a build id changes the file / build id of the main mapping and nothing
+   else: every mapping keeps id, range and ALL FOUR has-symbols flags; locations, functions, samples
+   are those fetched *)
+Theorem cli_named_executable_touches_only_file_and_buildid : forall c p,
+  Forall2 (fun m m' => map_key m' = map_key m \/ (m_id m' = m_id m /\ m_start m' = m_start m /\ m_limit m' = m_limit m /\ m_offset m' = m_offset m))
+          (p_mapping (add_fake p)) (p_mapping (cli_input c p)) /\
+  Forall2 (fun m m' => m_hasfn m' = m_hasfn m /\ m_hasfile m' = m_hasfile m /\ m_hasline m' = m_hasline m /\ m_hasinline m' = m_hasinline m)
+          (p_mapping (add_fake p)) (p_mapping (cli_input c p)) /\
+  p_location (cli_input c p) = p_location (add_fake p) /\ p_function (cli_input c p) = p_function (add_fake p) /\
+  p_sample (cli_input c p) = p_sample (add_fake p).
+Proof. exact cli_input_flags. Qed.
+Print Assumptions cli_named_executable_touches_only_file_and_buildid.
+
+Theorem cli_frame : forall e script c mode absurl src p p4 calls,
+  fetch_cli (builtin_plugin e script) c mode absurl src p = FOut p4 calls ->
+  src_ok absurl src -> in_F34 absurl (cli_input c p) = false ->
+  frame_ok (add_comment c (cli_input c p)) p4.
+Proof. exact fetch_cli_frame_lemma. Qed.
+Print Assumptions cli_frame.
+
+(* without force, mappings that carry symbols -- the main binary included, whatever executable is
+   named on the command line -- and their locations come out as they went in *)
+Theorem cli_left_alone_unless_force : forall e script c mode absurl src p p4 calls,
+  fetch_cli (builtin_plugin e script) c mode absurl src p = FOut p4 calls ->
+  force_requested mode = false -> src_ok absurl src -> in_F34 absurl (cli_input c p) = false ->
+  left_alone (add_comment c (cli_input c p)) p4.
+Proof. exact fetch_cli_left_alone_lemma. Qed.
+Print Assumptions cli_left_alone_unless_force.
+
+Theorem cli_any_plugin_returns_valid : forall plug c mode absurl src p p4 calls,
+  fetch_cli plug c mode absurl src p = FOut p4 calls -> check_valid p4 = true.
+Proof. exact fetch_cli_valid_lemma. Qed.
+Print Assumptions cli_any_plugin_returns_valid.
+
+(* pprof fails on a valid profile only when the symbol service failed (Symbolize returned an error)
+   or the function ids ran out: symbol sources that answer the same function twice, empty frames,
+   partial answers ... never make the command fail *)
+Theorem cli_fails_only_when : forall e script c mode absurl src p calls,
+  fetch_cli (builtin_plugin e script) c mode absurl src p = FErr calls -> check_valid p = true ->
+  exists srcs p1 p2, check_valid p1 = true /\
+    (symbolize mode (with_srcs e srcs) script p1 = Out p2 true calls \/
+     (symbolize mode (with_srcs e srcs) script p1 = Out p2 false calls /\ ~ id_headroom p1 p2)).
+Proof. exact fetch_cli_fails_lemma. Qed.
+Print Assumptions cli_fails_only_when.
+
 (* F34: inside the class the frame condition fails on the unchanged tree *)
 Definition ex_env_f34 : env := {| e_http := fun _ => false; e_symz := fun _ => EmptyString; e_filt := fun _ s => s; e_srcs := [] |}.
 Definition f34_absurl (f : string) : bool := String.eqb f "x:y".
